@@ -122,7 +122,9 @@ def run(ctx):
         r = rng.random()
         if r < 0.45:
             n = SUP[i % len(SUP)] if rng.random() < 0.6 else rng.choice(allowed)
-            name = rng.choice([None, 'srv 1.x', name_of.get(n)])
+            # incl. a KNOWN version name whose table protocol differs from the number reported
+            other = rng.choice(SUP)
+            name = rng.choice([None, 'srv 1.x', name_of.get(n), name_of.get(other)])
             reply = ('proto', n, name)
         elif r < 0.6:
             reply = ('proto', rng.choice(unsupported + [99999, -3, 0, 2 ** 31]), rng.choice([None, 'weird']))
